@@ -319,8 +319,9 @@ def check_vocabulary(ctx, P, mod, cmp_cls, log_cls):
         a, b = lam.args.args[0].arg, lam.args.args[1].arg
         body = lam.body
         if sym in CMP.values():
-            ok = isinstance(body, ast.Compare) and len(body.ops) == 1 and CMP.get(type(body.ops[0])) == sym and \
-                is_name(body.left, a) and is_name(body.comparators[0], b) and a != b
+            # `a < b` and `b > a` (reflected operator) are the same comparison, also for TinyDB query objects
+            ok = isinstance(body, ast.Compare) and len(body.ops) == 1 and a != b and \
+                sorted(sem.atoms(body, True)) == sorted(sem.want(f"{a} {sym} {b}"))
             ctx.ob("C13.ops", f"{LDM}.ldm_constants.OPERATOR_MAPPING", f"entry:{sym}", ok,
                    f"'{sym}' is implemented as `{unparse(body)}` (must be `{a} {sym} {b}`)", loc)
         else:
